@@ -518,3 +518,69 @@ pub fn record(args: &[String]) {
     out.flush().unwrap();
     println!("{}", json!({"module": "zerv", "events": n}));
 }
+
+
+// ------------------------------------------------------------------ big numbers --
+/// C05 at the top of the u64 range (Trace_BigBump): one level of a tag with arbitrary u64 numbers is
+/// overridden and / or bumped by name; values travel as decimal texts.
+pub fn record_big(args: &[String]) {
+    use std::io::Write;
+    let seed: u64 = args[0].parse().unwrap();
+    let n: usize = args[1].parse().unwrap();
+    let mut out = std::io::BufWriter::new(std::fs::File::create(&args[2]).unwrap());
+    let mut rng = StdRng::seed_from_u64(seed);
+    const POOL: &[u64] = &[0, 1, 2, 9, 2147483647, 2147483648, 4294967294, 4294967295, 4294967296, 4294967297, 9007199254740993,
+                           9223372036854775807, 9223372036854775808, 18446744073709551613, 18446744073709551614, 18446744073709551615];
+    const NAMES: &[&str] = &["epoch", "major", "minor", "patch", "pre-release-num", "post", "dev"];
+    let text = |v: Option<u64>| v.map(|x| to_cps(&x.to_string())).unwrap_or(json!([]));
+    let mut pick = |rng: &mut StdRng| -> u64 {
+        match rng.gen_range(0..4) { 0 => rng.gen_range(0..5), 1 => rng.r#gen::<u64>(), _ => POOL[rng.gen_range(0..POOL.len())] }
+    };
+    for _ in 0..n {
+        let level = rng.gen_range(1..=7usize);
+        // the tag: X.Y.Z-[epoch.E.]rc.N[.post.P][.dev.D] in zerv's canonical SemVer shape
+        let start: Vec<Option<u64>> = (1..=7).map(|i| match i {
+            1 | 6 | 7 => if rng.gen_bool(0.5) { Some(pick(&mut rng)) } else { None },
+            _ => Some(pick(&mut rng)),
+        }).collect();
+        let mut pre = vec![];
+        if let Some(e) = start[0] { pre.push(format!("epoch.{e}")); }
+        pre.push(format!("rc.{}", start[4].unwrap()));
+        if let Some(p) = start[5] { pre.push(format!("post.{p}")); }
+        if let Some(d) = start[6] { pre.push(format!("dev.{d}")); }
+        let tag = format!("{}.{}.{}-{}", start[1].unwrap(), start[2].unwrap(), start[3].unwrap(), pre.join("."));
+        let (ov, bp) = match rng.gen_range(0..4) {
+            0 => (Some(pick(&mut rng)), None),
+            1 => (None, Some(pick(&mut rng))),
+            2 => (Some(pick(&mut rng)), Some(pick(&mut rng))),
+            _ => (None, Some([1u64, 1, 2, 0][rng.gen_range(0..4)])),
+        };
+        let mut argv: Vec<String> = ["version", "--source", "none", "--input-format", "semver", "--tag-version", &tag,
+                                     "--schema", "standard-base-prerelease-post-dev"].iter().map(|s| s.to_string()).collect();
+        let mut groups: Vec<Vec<String>> = vec![];
+        if let Some(o) = ov { groups.push(vec![format!("--{}", NAMES[level - 1]), o.to_string()]); }
+        if let Some(b) = bp { groups.push(vec![format!("--bump-{}", NAMES[level - 1]), b.to_string()]); }
+        groups.shuffle(&mut rng);
+        for g in groups { argv.extend(g); }
+        argv.push("--output-format".into());
+        argv.push("zerv".into());
+        let o = run_cli(&argv, None);
+        let outv = match &o {
+            Outcome::Panic(m) => json!({"kind": "panic", "text": m, "v": []}),
+            Outcome::Err(e) => json!({"kind": "err", "text": e, "v": []}),
+            Outcome::Ok(t) => match Zerv::from_str(t) {
+                Err(e) => json!({"kind": "unparsable", "text": e.to_string(), "v": []}),
+                Ok(z) => {
+                    let v = &z.vars;
+                    let pn = v.pre_release.as_ref().and_then(|p| p.number);
+                    json!({"kind": "ok", "v": [text(v.epoch), text(v.major), text(v.minor), text(v.patch), text(pn), text(v.post), text(v.dev)]})
+                }
+            },
+        };
+        let ev = json!({"k": "big", "argv": argv, "level": level, "start": start.iter().map(|x| text(*x)).collect::<Vec<_>>(),
+                        "ov": text(ov), "bp": text(bp), "out": outv});
+        writeln!(out, "{ev}").unwrap();
+    }
+    out.flush().unwrap();
+    println!("{}", json!({"module": "bigbump", "events": n}));
+}
